@@ -20,6 +20,7 @@ type Clause struct {
 	File  string
 	Expr  SpecExpr // parsed lazily
 	Name  string   // optional clause name ("ensures fed: ...")
+	Assumed bool   // "trusted ensures <expr>": used at call sites, not proved from the body (listed as assumption)
 }
 
 type LoopSpec struct {
@@ -113,7 +114,19 @@ type Guard struct {
 	File   string
 }
 
+// Owner declares the only functions allowed to write the named fields of a struct type (so that
+// a representation invariant proved for those functions is an invariant of the type).
+type Owner struct {
+	Type    string
+	Fields  []string
+	Writers []string
+	Props   []string
+	Line    int
+	File    string
+}
+
 type ContractFile struct {
+	Owners   []*Owner
 	Funcs    []*FuncContract
 	Ghosts   []*GhostDecl
 	Specs    []*SpecFunc
@@ -275,6 +288,16 @@ func parseContractLine(body, path string, line int, stub bool, cf *ContractFile,
 		}
 		cf.Axioms = append(cf.Axioms, &Axiom{Name: strings.TrimSpace(r[:i]), Text: strings.TrimSpace(r[i+1:]), Lemma: word == "lemma", BV: bv, Props: props, Line: line, File: path})
 		return nil
+	case word == "owner":
+		// owner [@Cxx] T: f1, f2 by F1, T.M2
+		props, r := takeTags(rest)
+		i := strings.Index(r, ":")
+		by := strings.Index(r, " by ")
+		if i < 0 || by < 0 {
+			return fmt.Errorf("bad owner")
+		}
+		cf.Owners = append(cf.Owners, &Owner{Type: strings.TrimSpace(r[:i]), Fields: splitNames(r[i+1 : by]), Writers: splitNames(r[by+4:]), Props: props, Line: line, File: path})
+		return nil
 	case word == "guard":
 		// guard T: f1, f2 by mu inv expr
 		i := strings.Index(rest, ":")
@@ -418,6 +441,11 @@ func parseClause(body, path string, line int, fc *FuncContract, us *UnitSpec) er
 		fc.Inline = true
 	case word == "trusted" && rest == "ensures":
 		fc.AssumeEnsures = true
+	case word == "trusted" && strings.HasPrefix(rest, "ensures "):
+		rest = strings.TrimSpace(strings.TrimPrefix(rest, "ensures "))
+		c := mk("ensures")
+		c.Assumed = true
+		us.Ensures = append(us.Ensures, c)
 	case word == "trusted":
 		fc.Trusted = true
 		fc.Verify = false
